@@ -689,3 +689,110 @@ func checkListingStateReinitialised(w *core.World, r *core.Report, rule string) 
 	}
 	r.Floor(rule, "listing state fields", len(fields), 2)
 }
+
+// checkFrameLookupReadsFramesOnly (C09 R11): "a symbol is defined in exactly one scope" and "the
+// limit of a live symbol is kept" rest on the frame lookup (the function of package cache whose
+// integer result Add compares with -1) answering from the frames alone. A shortcut through the
+// accounting fields is wrong for some history: the used size is 0 while symbols with empty values
+// are live, a size limit of 0 is recorded for unlimited symbols. Decided structurally: the lookup
+// and the package functions it calls read no field of Cache other than the frame list.
+func checkFrameLookupReadsFramesOnly(w *core.World, r *core.Report, rule string, add *ssa.Function) {
+	var lookups []*ssa.Function
+	seen := map[*ssa.Function]bool{}
+	for _, c := range core.Calls(add) {
+		call, ok := c.(*ssa.Call)
+		f := core.StaticCallee(c)
+		if !ok || f == nil || seen[f] || core.PkgOf(f) != "cache" || f.Signature.Results().Len() != 1 || len(f.Blocks) == 0 {
+			continue
+		}
+		if bt, ok := f.Signature.Results().At(0).Type().Underlying().(*types.Basic); !ok || bt.Kind() != types.Int {
+			continue
+		}
+		cmp := false
+		if refs := call.Referrers(); refs != nil {
+			for _, u := range *refs {
+				if bo, ok := u.(*ssa.BinOp); ok {
+					if x, _, k, ok := core.CmpConst(bo); ok && x == ssa.Value(call) && (k == -1 || k == 0) {
+						cmp = true
+					}
+				}
+			}
+		}
+		if cmp {
+			seen[f] = true
+			lookups = append(lookups, f)
+		}
+	}
+	n := 0
+	for _, l := range lookups {
+		n++
+		r.Touch(core.QName(l))
+		bad := ""
+		var badPos token.Pos
+		for _, g := range append([]*ssa.Function{l}, cachePkgCallees(l)...) {
+			for _, in := range allInstrs(g) {
+				u, ok := in.(*ssa.UnOp)
+				if !ok || u.Op != token.MUL {
+					continue
+				}
+				if tn, f, ok := core.FieldOfAddr(u.X); ok && tn == "cache.Cache" && f != "Cache" {
+					bad = fmt.Sprintf("%s reads Cache.%s at %s", core.QName(g), f, w.Pos(u.Pos()))
+					badPos = u.Pos()
+				}
+			}
+		}
+		r.Check(bad == "", rule, "cache frame lookup ("+core.QName(l)+"): answers from the frames alone", badPos, "reads only the frame list",
+			"whether a symbol is defined is answered from the accounting (used size, size limits) instead of the frames: for some history - every live value empty, a symbol without a limit - a defined symbol is reported undefined, so it can be added a second time in another scope and its limit is replaced or dropped: "+bad)
+	}
+	r.Floor(rule, "frame lookups used by Add", n, 1)
+}
+
+// checkCacheErrorsOmitValue (C05 R10): "a result larger than its limit is never stored or shown".
+// The refusal is an error, and error texts are shown: the VM hands every error to Page.WithError
+// and the catch node is rendered with it in front. So no error built in the cache's Add/Update may
+// carry the value it refuses. Decided structurally: no argument of an error or string formatting
+// call in those methods (and the package functions they call) derives from the value parameter
+// itself; its length (a call of len) is fine.
+func checkCacheErrorsOmitValue(w *core.World, r *core.Report, rule string, methods ...*ssa.Function) {
+	n := 0
+	for _, m := range methods {
+		if m == nil {
+			continue
+		}
+		vp := valueParamOf(m)
+		if vp == nil {
+			// the store may have moved into a helper: take the string parameters other than the key (first)
+			for i, p := range m.Params {
+				if b, ok := p.Type().Underlying().(*types.Basic); ok && b.Kind() == types.String && i >= 2 {
+					vp = p
+				}
+			}
+		}
+		if vp == nil {
+			r.Undecided(rule, core.QName(m)+": value parameter", m.Pos(), "cannot identify the value parameter")
+			continue
+		}
+		r.Touch(core.QName(m))
+		bad := ""
+		var badPos token.Pos
+		for _, c := range core.Calls(m) {
+			name := core.CallName(c)
+			if !(strings.HasPrefix(name, "fmt.") || strings.HasPrefix(name, "errors.")) {
+				continue
+			}
+			n++
+			for _, a := range core.CallArgs(c) {
+				roots, _ := core.DeepSources(a, nil)
+				for _, rt := range roots {
+					if rt == ssa.Value(vp) {
+						bad = fmt.Sprintf("%s at %s takes the value parameter %s", name, w.Pos(c.Pos()), vp.Name())
+						badPos = c.Pos()
+					}
+				}
+			}
+		}
+		r.Check(bad == "", rule, core.QName(m)+": errors do not carry the value", badPos, "no formatting call takes the value itself",
+			"the error that refuses a value quotes it: the VM puts the error text in front of the catch node's page, so a result larger than its limit is shown to the client although it was never stored: "+bad)
+	}
+	r.Floor(rule, "error/formatting calls in Add and Update", n, 4)
+}
